@@ -52,6 +52,9 @@ func main() {
 	if os.Args[1] == "replay" {
 		os.Exit(replay(os.Args[2]))
 	}
+	if os.Args[1] == "crashed" && len(os.Args) >= 5 {
+		os.Exit(crashed(os.Args[2], os.Args[3], os.Args[4]))
+	}
 	id, tier := os.Args[1], os.Args[2]
 	def, ok := checks[id]
 	if !ok || (tier != "quick" && tier != "thorough") {
@@ -81,6 +84,32 @@ func main() {
 	_ = code
 	pprof.StopCPUProfile()
 	os.Exit(r.Finish())
+}
+
+// crashed is called by ./check when the run of a check died of a Go runtime fatal error that no
+// recover() can catch ("fatal error: concurrent map writes" and its relatives) raised inside the
+// library.  The harness decodes, scores and reports from 16 goroutines, each on its own objects —
+// the use C16 promises to be safe; the library tearing the process down under it is a violation,
+// reported by whichever check happened to be running.  The trace is the artefact.
+func crashed(id, tier, traceFile string) int {
+	def, ok := checks[id]
+	if !ok {
+		return 2
+	}
+	b, err := os.ReadFile(traceFile)
+	if err != nil {
+		return 2
+	}
+	trace := string(b)
+	if len(trace) > 6000 {
+		trace = trace[:6000]
+	}
+	r := ev.New(id, tier, def.level)
+	r.Violate(ev.Violation{Kind: "library-crashes-under-concurrent-use", Case: map[string]any{"driver": "the worker pool of this check: 16 goroutines, each decoding, scoring and reporting on objects of its own"},
+		Observed: trace, Expected: "no Go runtime fatal error inside the library (concurrent decoding into separate objects and concurrent queries are safe, C16)"})
+	r.Set("exhaustive", false)
+	r.Set("rule", "the run was cut short by a runtime fatal error inside the library; nothing else was judged")
+	return r.Finish()
 }
 
 // parallel runs fn(i) for i in [0,n) on all cores.
